@@ -25,13 +25,15 @@ class _Site:
 
 
 class _Var:
+    """Like tskit.Variant: with missing data the alleles tuple carries a trailing None that num_alleles does not count."""
+
     def __init__(self, idx, alleles, genos):
         self.site = _Site(idx)
         self.index = idx
-        self.alleles = alleles
+        self.has_missing_data = -1 in genos
+        self.alleles = tuple(alleles) + ((None,) if self.has_missing_data else ())
         self.num_alleles = len(alleles)
         self.genotypes = nplite.A(genos, 'int8')
-        self.has_missing_data = -1 in genos
 
 
 class _Sites:
@@ -123,7 +125,7 @@ def _gt(g):
     return "." if g == -1 else str(g)
 
 
-def _check_text(txt, pos, genos, masked, groups, names):
+def _check_text(txt, pos, genos, masked, groups, names, alt="T"):
     lines = txt.split("\n")
     data = [l for l in lines if l and not l.startswith("#")]
     head = [l for l in lines if l.startswith("#CHROM")]
@@ -134,7 +136,7 @@ def _check_text(txt, pos, genos, masked, groups, names):
         return False
     for line, j in zip(data, expect_sites):
         f = line.split("\t")
-        if f[0] != "1" or f[1] != str(pos[j]) or f[2] != str(j) or f[3] != "A" or f[4] != "T":
+        if f[0] != "1" or f[1] != str(pos[j]) or f[2] != str(j) or f[3] != "A" or f[4] != alt:
             return False
         if f[5:9] != [".", "PASS", ".", "GT"]:
             return False
@@ -325,3 +327,40 @@ def legacy_transform(a: int, b: int, c: int) -> bool:
     if 1 <= a < b < c:
         ok = ok and out == [a, b, c]
     return ok
+
+
+def monomorphic_site(g0: int, g1: int) -> bool:
+    """
+    A site without derived alleles has ALT '.', with or without missing calls.
+    pre: -1 <= g0 <= 0 and -1 <= g1 <= 0
+    post: _
+    """
+    genos = [[g0, g1]]
+    ts = FakeTS([4], genos, 10, alleles=("A",))
+    txt = _run(ts, None, True)
+    return _check_text(txt, [4], genos, [False], [[0], [1]], ["tsk_0", "tsk_1"], alt=".")
+
+
+def _halve(xs):
+    return nplite.A([int(v) // 2 for v in xs], int)
+
+
+def position_transform_and_masks(p0: int, p1: int, p2: int, m0: bool, m1: bool, m2: bool, apz: bool) -> bool:
+    """
+    With a callable transform several sites can map to position 0: the error depends on exactly the unmasked ones,
+    and POS is the transformed position.
+    pre: 0 <= p0 < p1 < p2 < 8
+    post: _
+    """
+    genos = [[0, 1], [1, 0], [1, 1]]
+    masked = [m0, m1, m2]
+    pos = [p0, p1, p2]
+    ts = FakeTS(pos, genos, 10)
+    zero_unmasked = any(p // 2 == 0 and not m for p, m in zip(pos, masked))
+    try:
+        txt = _run(ts, [m0, m1, m2], apz, transform=_halve)
+    except ValueError:
+        return (not apz) and zero_unmasked
+    if (not apz) and zero_unmasked:
+        return False
+    return _check_text(txt, [p // 2 for p in pos], genos, masked, [[0], [1]], ["tsk_0", "tsk_1"])
